@@ -416,7 +416,23 @@ func (r *Run) watchdog() {
 				}
 			}
 			fmt.Fprintf(os.Stderr, "watchdog: heap grew to %d MiB; cases in flight: %v\n", ms.HeapAlloc>>20, descs)
-			r.report(Viol{Sig: "unbounded-memory", Msg: fmt.Sprintf("a library call allocates without bound (heap %d MiB); cases in flight: %v", ms.HeapAlloc>>20, descs), Kind: "none", Unit: 0})
+			v := Viol{Sig: "unbounded-memory", Msg: fmt.Sprintf("a library call allocates without bound (heap %d MiB); cases in flight: %v", ms.HeapAlloc>>20, descs), Kind: "none", Unit: 0}
+			if r.report(v) {
+				// the runaway calls keep allocating while this goroutine reports: with
+				// several of them in flight the process can reach its address-space
+				// limit before Finish has aggregated the workers' tables.  The verdict
+				// therefore goes out first, by the shortest path (replay file, minimal
+				// evidence, VIOLATION line, exit 1); nothing else is attempted.
+				v.Prop = r.Prop
+				path := WriteReplay(v)
+				os.MkdirAll(filepath.Join(OutDir, "evidence"), 0755)
+				ev := fmt.Sprintf("{\"property_id\":%q,\"tier\":%q,\"seed\":%d,\"level\":%q,\"violations\":1,\"wall_s\":%.2f,\"assumptions\":[],\"coverage\":{\"exhaustive\":false,\"stopped_by\":\"live-memory guard\",\"peak_heap_mib\":%d}}\n",
+					r.Prop, r.Tier, r.Seed, r.Level, time.Since(r.Start).Seconds(), ms.HeapAlloc>>20)
+				ioutil.WriteFile(filepath.Join(OutDir, "evidence", r.Prop+".json"), []byte(ev), 0644)
+				fmt.Printf("violation: %s\n", v.Msg)
+				fmt.Printf("VIOLATION property=%s replay=%s\n", r.Prop, path)
+				os.Exit(1)
+			}
 			code := r.Finish()
 			os.Exit(code)
 		}
